@@ -323,6 +323,28 @@ impl Monitor for Mon07 {
         }
         let half_full = fee(q, s.pre.ecfg.liquidation_fee.u128(), d) / 2;
         let part = mul_div_floor(pr.size, frac, d);
+        // F2's exact condition, recomputed: the partial path is taken (|ratio| > fee ratio and a partial ratio is set)
+        // and one of the unsigned subtractions of the partial reply underflows:
+        //   margin < |realised| + penalty,  long: notional < slice + |realised|,  short: notional + |realised| < slice
+        let f2_predicted = (|| -> Option<bool> {
+            if frac == 0 || !r.abs().gt(&S::pos(s.pre.ecfg.liquidation_fee.u128())) {
+                return Some(false);
+            }
+            let dir = if pr.long { margined_perp::margined_vamm::Direction::AddToAmm } else { margined_perp::margined_vamm::Direction::RemoveFromAmm };
+            let slice: u128 = w
+                .query::<cosmwasm_std::Uint128, _>(&w.vamms[v], &margined_perp::margined_vamm::QueryMsg::OutputAmount { direction: dir, amount: cosmwasm_std::Uint128::new(part) })
+                .ok()?
+                .u128();
+            let realised = pr.pnl_spot()?.mul(&S::pos(frac)).div_trunc(&S::pos(d)).mag_u128()?;
+            let penalty = fee(slice, s.pre.ecfg.liquidation_fee.u128(), d);
+            let margin_fails = pr.margin < realised.saturating_add(penalty);
+            // the reply picks the arm by the sign of the size *after* the reduction: a short that is reduced to
+            // exactly zero (100 % ratio) goes through the long arm
+            let long_arm = pr.long || part >= pr.size;
+            let notional_fails = if long_arm { pr.notional < slice.saturating_add(realised) } else { pr.notional.saturating_add(realised) < slice };
+            Some(margin_fails || notional_fails)
+        })()
+        .unwrap_or(false);
         Some(
             Violation::new(
                 "undermargined_position_not_liquidatable",
@@ -350,7 +372,8 @@ impl Monitor for Mon07 {
             .with("real_feed", w.cfg.real_feed)
             .with("vault_short", vault_short)
             .with("full_fee_zero", half_full == 0)
-            .with("partial_size_zero", frac != 0 && part == 0),
+            .with("partial_size_zero", frac != 0 && part == 0)
+            .with("f2_predicted", f2_predicted),
         )
     }
     fn end(&mut self, _w: &World, out: &mut Outcome) {
